@@ -192,6 +192,26 @@ func oracleC03CLI(p *Pair, env *Env, a [][]byte) *Failure {
 			return &Failure{What: "generate (fresh processes) is not deterministic", Detail: fmt.Sprintf("program %q\nexit %d %q\nexit %d %q", args[6], first.exit, first.stdout, c.exit, c.stdout)}
 		}
 	}
+	// the same tree, the same configuration, the same -d: the working directory of the process is no input. Started from
+	// the exclude directory, the include directory, and a directory that holds other files (and directories) under the
+	// names of the include files
+	scratch := filepath.Join(sb, "elsewhere")
+	_ = os.MkdirAll(scratch, 0o755)
+	for i := 0; i+2 < len(files); i += 3 {
+		name := string(files[i+1])
+		if i%2 == 0 {
+			_ = os.WriteFile(filepath.Join(scratch, name), []byte("decoy-entry-from-the-working-directory\n"), 0o644)
+		} else {
+			_ = os.MkdirAll(filepath.Join(scratch, name), 0o755)
+		}
+	}
+	for _, cwd := range []string{filepath.Join(sb, "regex-assembly", "exclude"), filepath.Join(sb, "regex-assembly", "include"), scratch} {
+		c := runCLI(env, cwd, args[6], "-l", "disabled", "-d", sb, "regex", "generate", "-")
+		if c.exit != first.exit || !bytes.Equal(c.stdout, first.stdout) {
+			return &Failure{What: "generate depends on the working directory of the process (same tree, same -d)",
+				Detail: fmt.Sprintf("program %q\nfrom the root: exit %d %q\nfrom %s: exit %d %q", args[6], first.exit, first.stdout, strings.TrimPrefix(cwd, sb), c.exit, c.stdout)}
+		}
+	}
 	return nil
 }
 
